@@ -283,7 +283,20 @@ func genCase(cfg genConfig) *rapid.Generator[Case] {
 			switch name {
 			case "PUMP":
 				// drive the overflow counter: a big constant multiplication or repeated doubling, then a consumer
-				switch rapid.IntRange(0, 3).Draw(t, "pump") {
+				switch rapid.IntRange(0, 5).Draw(t, "pump") {
+				case 4:
+					// x - x: the builder folds the limbs to the padding constants (an element with constant limbs and overflow)
+					push(Op{Op: "Sub", A: []int{a0, a0}})
+				case 5:
+					// Sum of operands at the maximal overflow
+					if push(Op{Op: "MulConst", A: []int{a0}, K: new(big.Int).Sub(pow2(uint(maxOf)), big.NewInt(1)).String()}) {
+						k := rapid.IntRange(2, 9).Draw(t, "sum-arity")
+						as := make([]int, k)
+						for j := range as {
+							as[j] = n
+						}
+						push(Op{Op: "Sum", A: as})
+					}
 				case 0:
 					push(Op{Op: "MulConst", A: []int{a0}, K: drawMulConst(t, maxOf, "k")})
 				case 1:
@@ -327,12 +340,7 @@ func genCase(cfg genConfig) *rapid.Generator[Case] {
 				}
 			case "Add", "Sub", "Mul", "MulMod", "MulNoReduce", "Div":
 				push(Op{Op: name, A: []int{a0, pick(t, n, "a1")}})
-			case "ReduceStrict", "ToBitsCanonical":
-				// a constant operand makes reduce() panic (known robustness defect, exercised by the directed cases)
-				if !st.isConst[a0] {
-					push(Op{Op: name, A: []int{a0}})
-				}
-			case "Neg", "Inverse", "Reduce", "ToBits", "IsZero", "BitsRoundTrip":
+			case "Neg", "Inverse", "Reduce", "ReduceStrict", "ToBits", "ToBitsCanonical", "IsZero", "BitsRoundTrip":
 				push(Op{Op: name, A: []int{a0}})
 			case "Sqrt":
 				// prefer squares
@@ -344,7 +352,7 @@ func genCase(cfg genConfig) *rapid.Generator[Case] {
 				push(Op{Op: "Sqrt", A: []int{a0}})
 			case "MulConst":
 				k := drawMulConst(t, maxOf, "k")
-				if rapid.IntRange(0, 29).Draw(t, "k-neg") == 0 {
+				if rapid.IntRange(0, 7).Draw(t, "k-neg") == 0 {
 					k = big.NewInt(int64(-rapid.IntRange(1, 1000).Draw(t, "k-negval"))).String()
 				}
 				push(Op{Op: "MulConst", A: []int{a0}, K: k})
